@@ -138,9 +138,22 @@ Proof.
   destruct vb, ipok; cbn [andb negb] in H; try (inversion H; subst; left; split; [discriminate | reflexivity]).
   destruct (get_prov s c) eqn:G; [inversion H; subst; left; split; [discriminate | reflexivity]|].
   destruct (Z.ltb_spec (st_price s) 0); [inversion H; subst; left; split; [discriminate | reflexivity]|].
+  destruct (snd c) eqn:Hu; [inversion H; subst; left; split; [discriminate | reflexivity]|].
   destruct (send (st_bank s) (acct c) escrow (st_price s)) as [b|] eqn:S;
     [|inversion H; subst; left; split; [discriminate | reflexivity]].
   inversion H; subst. right. repeat split; auto. exists b. split; reflexivity.
+Qed.
+
+(* since the repair "register a provider only under the canonical spelling": an accepted
+   registration was signed with the canonical (lower-case) spelling *)
+Lemma init_ok_canonical s c vb ipok ip space kb s' :
+  init_provider s c vb ipok ip space kb = (s', Ok) -> snd c = false.
+Proof.
+  unfold init_provider. intros H.
+  destruct (negb (vb && ipok)); [discriminate|].
+  destruct (get_prov s c); [discriminate|].
+  destruct (st_price s <? 0); [discriminate|].
+  destruct (snd c); [discriminate | reflexivity].
 Qed.
 
 Lemma shutdown_inv s c vb s' o :
@@ -371,11 +384,12 @@ Proof.
 Qed.
 
 Lemma init_succeeds s c ip space kb :
+  snd c = false ->
   get_prov s c = None -> 0 <= st_price s <= bal (st_bank s) (acct c) ->
   snd (init_provider s c true true ip space kb) = Ok.
 Proof.
-  intros G H. unfold init_provider. cbn [andb negb]. rewrite G.
-  destruct (Z.ltb_spec (st_price s) 0); [lia|].
+  intros Hc G H. unfold init_provider. cbn [andb negb]. rewrite G.
+  destruct (Z.ltb_spec (st_price s) 0); [lia|]. rewrite Hc.
   destruct (send_ok (st_bank s) (acct c) escrow (st_price s) H) as [b ->]. reflexivity.
 Qed.
 
